@@ -1019,7 +1019,7 @@ theorem isPod_handle {v : V} (h : isPod v = true) : handleOf v = none := by
   cases v <;> simp [isPod] at h <;> rfl
 
 /-- `operator=(const Var&)`: safe for every held source, also one stored inside the target -/
-theorem Inv.assignV {σ : State} {T : List V} {t : Loc} {src : V} (inv : Inv σ T) (hl : ValidLoc σ t) (hs : Held σ T src)
+theorem Inv.assignV {σ : State} {T : List V} {t : Loc} {src : V} (inv : Inv σ T) (hl : ValidLoc σ t) (hs : LiveV σ.heap src)
     (hself : ∀ id, parentOf t = some id → handleOf src ≠ some id) :
     ∃ σ', Var.assignV σ t src = .ok σ' ∧ Inv σ' T ∧ σ'.slots.length = σ.slots.length := by
   obtain ⟨old, hr, _⟩ := readLoc_valid hl T
@@ -1035,7 +1035,7 @@ theorem Inv.assignV {σ : State} {T : List V} {t : Loc} {src : V} (inv : Inv σ 
   split
   · -- STRING := STRING in place
     exact inplace _ rfl
-  · obtain ⟨h1, hc, inv1, same⟩ := inv.copyV hs
+  · obtain ⟨h1, hc, inv1, same⟩ := inv.copyLive hs
     simp only [hc]
     have hl1 : ValidLoc { σ with heap := h1 } t := (SameDom.of_same same).validLoc hl
     obtain ⟨σ2, old', hr', hw, inv2, dom, _⟩ := inv1.writeLoc hl1 hself
@@ -2301,7 +2301,7 @@ theorem Inv.assignType {σ : State} {T : List V} {t : Loc} {ty : Nat} (inv : Inv
   · right
     simp only [h1, bind, Except.bind]
     have hl1 : ValidLoc { σ with heap := h' } t := by rw [hx]; exact validLoc_append x hl
-    obtain ⟨σ2, ha, inv2, hs2⟩ := Inv.assignV (T := v :: T) (src := v) inv1 hl1 (Or.inr (Or.inl (by simp))) (by
+    obtain ⟨σ2, ha, inv2, hs2⟩ := Inv.assignV (T := v :: T) (src := v) inv1 hl1 (Held.live inv1 (Or.inr (Or.inl (by simp)))) (by
       intro P hP hv
       have := hfresh P hv
       cases t with
@@ -2315,6 +2315,262 @@ theorem Inv.assignType {σ : State} {T : List V} {t : Loc} {ty : Nat} (inv : Inv
     obtain ⟨h3, hd, inv3, _⟩ := Inv.drop (σ := σ2) (wl := [v]) (T := T) (by simpa using inv2)
     simp only [hd, pure, Except.pure]
     exact ⟨_, rfl, inv3, hs2⟩
+
+
+
+
+/-! ## reachability guard -/
+
+theorem reaches_false_ne {f : Nat} {h : Heap} {t : Nat} {v : V} (hr : reaches (f + 1) h t v = .ok false) :
+    handleOf v ≠ some t := by
+  intro hv
+  simp only [reaches, hv, if_true] at hr
+  cases hr
+
+theorem anyE_benign {α : Type} (p : α → Except Err Bool) : ∀ (l : List α),
+    (∀ x ∈ l, (∃ b, p x = .ok b) ∨ p x = .error .fuel) → (∃ b, anyE l p = .ok b) ∨ anyE l p = .error .fuel
+  | [], _ => Or.inl ⟨false, rfl⟩
+  | x :: xs, hp => by
+    simp only [anyE]
+    rcases hp x (by simp) with ⟨b, hb⟩ | hb
+    · rw [hb]
+      cases b with
+      | true => exact Or.inl ⟨true, rfl⟩
+      | false => exact anyE_benign p xs (fun y hy => hp y (by simp [hy]))
+    · rw [hb]; exact Or.inr rfl
+
+/-- the walk of the guard only visits live blocks -/
+theorem Inv.reaches_benign {σ : State} {T : List V} (inv : Inv σ T) (t : Nat) : ∀ (f : Nat) (v : V), LiveV σ.heap v →
+    (∃ b, reaches f σ.heap t v = .ok b) ∨ reaches f σ.heap t v = .error .fuel
+  | 0, _, _ => Or.inr rfl
+  | f + 1, v, hv => by
+    simp only [reaches]
+    cases hh : handleOf v with
+    | none => exact Or.inl ⟨false, rfl⟩
+    | some id =>
+      simp only []
+      by_cases he : id = t
+      · simp only [he, if_true]; exact Or.inl ⟨true, rfl⟩
+      · simp only [he, if_false]
+        obtain ⟨b, hb, _⟩ := hv id hh
+        simp only [hb]
+        apply anyE_benign
+        intro kv hkv
+        exact Inv.reaches_benign inv t f kv.2 (inv.wf.liveV (Or.inr (mem_hvals_of_getB hb (List.mem_map_of_mem hkv))))
+
+theorem travFuel_pos (h : Heap) : ∃ f, travFuel h = f + 1 := ⟨h.length + 1, rfl⟩
+
+/-- outcome of `wouldCycle`: refused for depth, or a verdict; a negative verdict means the value is not the
+handle of the parent block itself -/
+theorem Inv.wouldCycle {σ : State} {T : List V} (inv : Inv σ T) (t : Loc) {src : V} (hs : LiveV σ.heap src) :
+    Var.wouldCycle σ.heap (parentOf t) src = .error .fuel ∨ Var.wouldCycle σ.heap (parentOf t) src = .ok true ∨
+    (Var.wouldCycle σ.heap (parentOf t) src = .ok false ∧ ∀ id, parentOf t = some id → handleOf src ≠ some id) := by
+  unfold Var.wouldCycle
+  cases hp : parentOf t with
+  | none => right; right; exact ⟨rfl, fun id h => by cases h⟩
+  | some P =>
+    simp only []
+    obtain ⟨f, hf⟩ := travFuel_pos σ.heap
+    rcases inv.reaches_benign P (travFuel σ.heap) src hs with ⟨b, hb⟩ | hb
+    · cases b with
+      | true => right; left; exact hb
+      | false =>
+        right; right
+        refine ⟨hb, fun id hid => ?_⟩
+        cases hid
+        rw [hf] at hb
+        exact reaches_false_ne hb
+    · left; exact hb
+
+
+/-! ## clone -/
+
+theorem liveV_append {h : Heap} (x : Heap) {v : V} (hv : LiveV h v) : LiveV (h ++ x) v := by
+  intro j hj
+  obtain ⟨bj, hbj, hk⟩ := hv j hj
+  exact ⟨bj, by rw [getB_append_left _ (getB_lt hbj)]; exact hbj, hk⟩
+
+/-- outcome of cloning with recursion bound `f` from a state satisfying the invariant -/
+def CloneOK (f : Nat) : Prop :=
+  ∀ (σ : State) (v : V) (T : List V), Inv σ T → LiveV σ.heap v →
+    cloneV f σ.heap v = .error .fuel ∨
+    ∃ h' c, cloneV f σ.heap v = .ok (h', c) ∧ Inv { σ with heap := h' } (c :: T) ∧ ∃ x, h' = σ.heap ++ x
+
+theorem cloneItems {f : Nat} (ih : CloneOK f) : ∀ (items : List (Bytes × V)) (σ : State) (T : List V), Inv σ T →
+    (∀ kv ∈ items, LiveV σ.heap kv.2) →
+    mapHeapE (cloneV f) σ.heap items = .error .fuel ∨
+    ∃ h' items', mapHeapE (cloneV f) σ.heap items = .ok (h', items') ∧
+      Inv { σ with heap := h' } (items'.map (·.2) ++ T) ∧ (∃ x, h' = σ.heap ++ x) ∧ items'.map (·.1) = items.map (·.1)
+  | [], σ, T, inv, _ => Or.inr ⟨σ.heap, [], rfl, by simpa using inv, ⟨[], by simp⟩, rfl⟩
+  | (k, x) :: rest, σ, T, inv, hlive => by
+    simp only [mapHeapE]
+    rcases ih σ x T inv (hlive (k, x) (by simp)) with h1 | ⟨h1, x', hc, inv1, ⟨y, hy⟩⟩
+    · left; simp [h1]
+    · simp only [hc]
+      rcases cloneItems ih rest { σ with heap := h1 } (x' :: T) inv1 (by
+          intro kv hkv
+          show LiveV h1 kv.2
+          rw [hy]; exact liveV_append y (hlive kv (by simp [hkv]))) with h2 | ⟨h2, rest', hm, inv2, ⟨z, hz⟩, hkeys⟩
+      · left; simp only [] at h2; simp [h2]
+      · right
+        simp only [] at hm
+        simp only [hm]
+        refine ⟨h2, (k, x') :: rest', rfl, ?_, ⟨y ++ z, by rw [hz, hy, List.append_assoc]⟩, by simp [hkeys]⟩
+        apply inv2.perm
+        · intro v hv
+          simp only [List.map_cons, List.cons_append, List.mem_cons, List.mem_append] at hv ⊢
+          rcases hv with h3 | h3 | h3
+          · exact Or.inr (Or.inl h3)
+          · exact Or.inl h3
+          · exact Or.inr (Or.inr h3)
+        · intro id
+          simp only [List.map_cons, List.cons_append, occ_cons, occ_append]
+          omega
+
+theorem cloneOK : ∀ f, CloneOK f
+  | 0 => fun _ _ _ _ _ => Or.inl rfl
+  | f + 1 => by
+    intro σ v T inv hv
+    simp only [cloneV]
+    cases hh : handleOf v with
+    | none => exact Or.inr ⟨σ.heap, v, rfl, (Inv.scalar hh).mpr inv, ⟨[], by simp⟩⟩
+    | some id =>
+      simp only []
+      obtain ⟨b, hb, hk⟩ := hv id hh
+      simp only [hb]
+      rcases cloneItems (cloneOK f) b.items σ T inv (fun kv hkv =>
+          inv.wf.liveV (Or.inr (mem_hvals_of_getB hb (List.mem_map_of_mem hkv)))) with h1 | ⟨h1, items', hm, inv1, ⟨y, hy⟩, hkeys⟩
+      · left; simp [h1]
+      · right
+        simp only [hm, allocB]
+        have hsorted : b.isObj = true → SortedItems items' := by
+          intro ho
+          have := inv.sorted id b hb ho
+          rw [SortedItems, AslProofs.Map.sorted_iff_keys, hkeys, ← AslProofs.Map.sorted_iff_keys]
+          exact this
+        have := Inv.alloc (σ := { σ with heap := h1 }) (T := T)
+          (b := { isObj := b.isObj, items := items', cap := max items'.length 3, rc := 1 }) (by simpa [bvals] using inv1) rfl hsorted
+        exact ⟨_, _, rfl, this, ⟨y ++ [_], by rw [hy, List.append_assoc]⟩⟩
+
+
+/-! ## extend (target = a root variable) -/
+
+theorem Inv.extendLoop {k sid : Nat} : ∀ (n : Nat) (σ : State) (T : List V) (i : Nat), Inv σ T → V.obj sid ∈ T →
+    k < σ.slots.length →
+    (∃ e, Var.extendLoop true sid n σ (.slot k) i = .error e ∧ (e = .sharedGrowth ∨ e = .badarg ∨ e = .cyclic)) ∨
+    ∃ σ', Var.extendLoop true sid n σ (.slot k) i = .ok σ' ∧ Inv σ' T ∧ σ'.slots.length = σ.slots.length
+  | 0, σ, T, i, inv, _, _ => Or.inr ⟨σ, rfl, inv, rfl⟩
+  | n + 1, σ, T, i, inv, hsid, hk => by
+    simp only [Var.extendLoop]
+    obtain ⟨sb, hsb, _⟩ := inv.wf.live (V.obj sid) (Or.inl (by simp [hsid])) sid rfl
+    simp only [hsb]
+    cases hi : sb.items[i]? with
+    | none => exact Or.inr ⟨σ, rfl, inv, rfl⟩
+    | some kv =>
+      obtain ⟨key, x⟩ := kv
+      simp only []
+      by_cases hx : x = V.none
+      · simp only [hx, if_true]
+        exact Inv.extendLoop n σ T (i + 1) inv hsid hk
+      · simp only [hx, if_false]
+        have hxlive : LiveV σ.heap x :=
+          inv.wf.liveV (Or.inr (mem_hvals_of_getB hsb (List.mem_map_of_mem (f := (·.2)) (List.mem_of_getElem? hi))))
+        have hl : ValidLoc σ (.slot k) := hk
+        obtain ⟨v, hr, hheld⟩ := readLoc_valid hl T
+        simp only [hr]
+        cases v with
+        | obj id =>
+          simp only []
+          by_cases hself : handleOf x = some id
+          · simp only [hself, if_true]; exact Or.inl ⟨_, rfl, Or.inr (Or.inr rfl)⟩
+          · simp only [hself, if_false]
+            obtain ⟨b, hb, hkind⟩ := inv.wf.live _ hheld id rfl
+            simp only [isObjV] at hkind
+            rcases inv.indexKey (k := key) hl hr hb hkind with h1 | ⟨σ1, id', p, h1, inv1, hs1, _, _, hv1, hkeep, hfresh⟩
+            · simp only [h1]; exact Or.inl ⟨_, rfl, Or.inl rfl⟩
+            · simp only [h1]
+              obtain ⟨σ2, ha, inv2, hs2⟩ := Inv.assignV (src := x) inv1 hv1 (hkeep x hxlive hself) (by
+                intro P hP
+                simp only [parentOf, Option.some.injEq] at hP; subst hP
+                rcases hfresh with e | e
+                · rw [e]; exact hself
+                · rw [e]; intro hs
+                  obtain ⟨bs, hbs, _⟩ := hxlive _ hs
+                  have := getB_lt hbs
+                  omega)
+              simp only [ha]
+              rcases Inv.extendLoop n σ2 T (i + 1) inv2 hsid (by rw [hs2, hs1]; exact hk) with ⟨e, h2, he⟩ | ⟨σ', h2, inv', hs'⟩
+              · exact Or.inl ⟨e, h2, he⟩
+              · exact Or.inr ⟨σ', h2, inv', by rw [hs', hs2, hs1]⟩
+        | none => exact Or.inl ⟨_, rfl, Or.inr (Or.inl rfl)⟩
+        | null => exact Or.inl ⟨_, rfl, Or.inr (Or.inl rfl)⟩
+        | bool _ => exact Or.inl ⟨_, rfl, Or.inr (Or.inl rfl)⟩
+        | int _ => exact Or.inl ⟨_, rfl, Or.inr (Or.inl rfl)⟩
+        | num _ => exact Or.inl ⟨_, rfl, Or.inr (Or.inl rfl)⟩
+        | flt _ => exact Or.inl ⟨_, rfl, Or.inr (Or.inl rfl)⟩
+        | sstr _ => exact Or.inl ⟨_, rfl, Or.inr (Or.inl rfl)⟩
+        | str _ => exact Or.inl ⟨_, rfl, Or.inr (Or.inl rfl)⟩
+        | arr _ => exact Or.inl ⟨_, rfl, Or.inr (Or.inl rfl)⟩
+
+theorem Inv.toObjIfNone {σ : State} {T : List V} {l : Loc} (inv : Inv σ T) (hl : ValidLoc σ l) :
+    ∃ σ0, Var.toObjIfNone σ l = .ok σ0 ∧ Inv σ0 T ∧ σ0.slots.length = σ.slots.length ∧ ValidLoc σ0 l ∧
+      (∀ v, LiveV σ.heap v → LiveV σ0.heap v) := by
+  obtain ⟨v, hr, _⟩ := readLoc_valid hl T
+  unfold Var.toObjIfNone
+  rw [hr]
+  cases v with
+  | none =>
+    obtain ⟨σ1, hw, inv1, hs1, hl1, _, _, hkeep⟩ := inv.vivify true hl hr
+    rw [mkHandle_true] at hw
+    exact ⟨σ1, by simp only [allocB]; exact hw, inv1, hs1, hl1, hkeep⟩
+  | null => exact ⟨σ, rfl, inv, rfl, hl, fun _ h => h⟩
+  | bool _ => exact ⟨σ, rfl, inv, rfl, hl, fun _ h => h⟩
+  | int _ => exact ⟨σ, rfl, inv, rfl, hl, fun _ h => h⟩
+  | num _ => exact ⟨σ, rfl, inv, rfl, hl, fun _ h => h⟩
+  | flt _ => exact ⟨σ, rfl, inv, rfl, hl, fun _ h => h⟩
+  | sstr _ => exact ⟨σ, rfl, inv, rfl, hl, fun _ h => h⟩
+  | str _ => exact ⟨σ, rfl, inv, rfl, hl, fun _ h => h⟩
+  | arr _ => exact ⟨σ, rfl, inv, rfl, hl, fun _ h => h⟩
+  | obj _ => exact ⟨σ, rfl, inv, rfl, hl, fun _ h => h⟩
+
+theorem Inv.extendObj {σ0 : State} {T : List V} {k : Nat} {src : V} (inv0 : Inv σ0 T) (hk : k < σ0.slots.length)
+    (hsrc0 : LiveV σ0.heap src) :
+    (∃ e, Var.extendObj true σ0 (.slot k) src = .error e ∧ (e = .sharedGrowth ∨ e = .badarg ∨ e = .cyclic)) ∨
+    ∃ σ', Var.extendObj true σ0 (.slot k) src = .ok σ' ∧ Inv σ' T ∧ σ'.slots.length = σ0.slots.length := by
+  have hl0 : ValidLoc σ0 (.slot k) := hk
+  obtain ⟨v0, hr0, _⟩ := readLoc_valid hl0 T
+  unfold Var.extendObj
+  rw [hr0]
+  by_cases hobj : (∃ id, v0 = V.obj id) ∧ (∃ sid, src = V.obj sid)
+  · obtain ⟨⟨id, rfl⟩, ⟨sid, rfl⟩⟩ := hobj
+    simp only []
+    obtain ⟨h1, hc, inv1, same⟩ := inv0.copyLive hsrc0
+    simp only [hc]
+    obtain ⟨sb, hsb, _⟩ := inv1.wf.live (V.obj sid) (Or.inl (by simp)) sid rfl
+    simp only [] at hsb
+    simp only [hsb]
+    rcases Inv.extendLoop (k := k) (sid := sid) sb.items.length { σ0 with heap := h1 } (V.obj sid :: T) 0 inv1 (by simp) hk with
+      ⟨e, h2, he⟩ | ⟨σ', h2, inv', hs'⟩
+    · simp only [h2]; exact Or.inl ⟨e, rfl, he⟩
+    · simp only [h2]
+      obtain ⟨h3, hd, inv3, _⟩ := Inv.drop (σ := σ') (wl := [V.obj sid]) (T := T) (by simpa using inv')
+      simp only [hd]
+      exact Or.inr ⟨_, rfl, inv3, hs'⟩
+  · right
+    refine ⟨σ0, ?_, inv0, rfl⟩
+    cases v0 <;> cases src <;> first | rfl | (exfalso; exact hobj ⟨⟨_, rfl⟩, ⟨_, rfl⟩⟩)
+
+/-- `extend` on a root variable -/
+theorem Inv.extendV {σ : State} {T : List V} {k : Nat} {src : V} (inv : Inv σ T) (hk : k < σ.slots.length)
+    (hsrc : LiveV σ.heap src) :
+    (∃ e, Var.extendV true σ (.slot k) src = .error e ∧ (e = .sharedGrowth ∨ e = .badarg ∨ e = .cyclic)) ∨
+    ∃ σ', Var.extendV true σ (.slot k) src = .ok σ' ∧ Inv σ' T ∧ σ'.slots.length = σ.slots.length := by
+  obtain ⟨σ0, h0, inv0, hs0, _, hkeep⟩ := inv.toObjIfNone (l := .slot k) hk
+  unfold Var.extendV
+  rw [h0]
+  rcases inv0.extendObj (k := k) (src := src) (by rw [hs0]; exact hk) (hkeep src hsrc) with ⟨e, h1, he⟩ | ⟨σ', h1, inv', hs'⟩
+  · exact Or.inl ⟨e, h1, he⟩
+  · exact Or.inr ⟨σ', h1, inv', by rw [hs', hs0]⟩
 
 
 end AslModel.Var
